@@ -134,11 +134,12 @@ def parse_answer(c, ans):
     if head.startswith('err '):
         tree = N.parse_sexp(N.tokens(head[4:]))[0]
         calls = N.parse_sexp(N.tokens(parts[1]))[0] if len(parts) > 1 else []
+        phase = parts[2].strip() if len(parts) > 2 else ''
         if tree[0] == 'rec':
             marks, keys = model_leaves(tree)
-            return dict(kind='rec', marks=marks, keys=keys, calls=calls)
+            return dict(kind='rec', marks=marks, keys=keys, calls=calls, phase=phase)
         if tree[0] == 'yaml':
-            return dict(kind='yaml', what=tree[1], calls=calls)
+            return dict(kind='yaml', what=tree[1], calls=calls, phase=phase)
         return dict(kind=tree[0], what=tree[1] if len(tree) > 1 else '', calls=calls)
     return dict(kind='bad', raw=ans[:300])
 
@@ -153,6 +154,15 @@ def model_calls(c, m):
         norm = CM.normalise_model_value(['obj'] + call[1:], c.model)
         out.append((name, CM.unparse(norm[2:]) if len(norm) > 2 else ''))
     return out
+
+
+def real_construct_phase(c):
+    """does the real load get through processing (so that its error comes from construction)?"""
+    try:
+        c.real.process(c.text)
+        return True
+    except Exception:  # noqa
+        return False
 
 
 def compare(c, m):
@@ -173,12 +183,19 @@ def compare(c, m):
             return 'constructor call sequences differ: real {} model {}'.format(
                 [n for n, _ in ri], [n for n, _ in mi])
         return None
+    if real[0] in ('rec', 'yaml') and m['kind'] in ('rec', 'yaml') and m['kind'] != real[0] \
+            and c.doc_type[0] != 'cls' and m.get('phase') == 'construct' and real_construct_phase(c):
+        # two defects of different kinds in a container-rooted document, both met during construction:
+        # which one PyYAML's generator rounds reach first is not modelled
+        c.order_ambiguity = True
+        return None
     if real[0] == 'rec':
         if m['kind'] != 'rec':
             return 'real raises RecognitionError ({}), model gives {}'.format(
                 c.real_out[1][:300].replace('\n', ' / '), {k: v for k, v in m.items() if k != 'calls'})
         if [tuple(x) for x in m['marks']] != [tuple(x) for x in real[1]]:
-            if c.doc_type[0] != 'cls' and c.real_out[1].startswith('An error occurred'):
+            if c.doc_type[0] != 'cls' and (c.real_out[1].startswith('An error occurred') or
+                                            (m.get('phase') == 'construct' and real_construct_phase(c))):
                 # PyYAML constructs a top-level list/dict in rounds (generators): with two defects in
                 # different items, which one is reported first is not modelled (DESIGN.md, modelling gaps)
                 c.order_ambiguity = True
